@@ -29,7 +29,10 @@ observables break it):
   (d) the directory tree below the study output path (every step instance's
       workspace, their parent directories, meta/, logs/) of the dry run equals
       the real run's -- for {--usetmp} x {--hashws} (with --usetmp the scripts
-      go to the temp directory, the workspaces must exist all the same).
+      go to the temp directory, the workspaces must exist all the same) -- and
+      every directory and every *.sh file present in both carries the same
+      permission bits (stat.S_IMODE): a script is as executable after a dry run
+      as after a real run.
 Inside Coq (ExecCases.both_ok 17, cfg dry = true): the Exec model's trace (EGen
 events per poll, rows, status) = the dry run's, and monitor family 17 silent.
 """
@@ -221,15 +224,37 @@ def dir_tree(out):
     return res
 
 
+def mode_map(out):
+    """permission bits (stat.S_IMODE) of every directory and every generated *.sh below the study output path"""
+    import stat
+    res = {}
+    for base, dirs, files in os.walk(out):
+        for x in dirs + [f for f in files if f.endswith(".sh")]:
+            p = os.path.join(base, x)
+            try:
+                res[os.path.relpath(p, out)] = stat.S_IMODE(os.lstat(p).st_mode)
+            except OSError:
+                res[os.path.relpath(p, out)] = None
+    return res
+
+
 def tree_clause(case, dry_out, real_out):
-    """clause (d): the directory tree of the dry run = the real run's -> violation text or None"""
+    """clause (d): the directory tree of the dry run = the real run's, and every directory and every generated
+    *.sh present in both carries the same permission bits -> violation text or None"""
     td, tr = dir_tree(dry_out), dir_tree(real_out)
-    if td == tr:
-        return None
-    return ("directory tree below the study output path differs%s%s: the real run created %d directories, the dry run %d; "
-            "missing in the dry run: %r; only in the dry run: %r"
-            % (" --usetmp" if case.get("usetmp") else "", " --hashws" if case.get("hashws") else "",
-               len(tr), len(td), sorted(tr - td)[:6], sorted(td - tr)[:6]))
+    flags = (" --usetmp" if case.get("usetmp") else "") + (" --hashws" if case.get("hashws") else "")
+    if td != tr:
+        return ("directory tree below the study output path differs%s: the real run created %d directories, the dry run %d; "
+                "missing in the dry run: %r; only in the dry run: %r"
+                % (flags, len(tr), len(td), sorted(tr - td)[:6], sorted(td - tr)[:6]))
+    md, mr = mode_map(dry_out), mode_map(real_out)
+    bad = [k for k in sorted(set(md) & set(mr)) if md[k] != mr[k]]
+    if bad:
+        k = bad[0]
+        fmt = lambda m: "<unreadable>" if m is None else "0%o" % m                      # noqa: E731
+        return ("permission bits differ%s: %s is %s after the dry run and %s after the real run (%d of %d directories / "
+                "generated scripts differ, e.g. %r)" % (flags, k, fmt(md[k]), fmt(mr[k]), len(bad), len(set(md) & set(mr)), bad[:4]))
+    return None
 
 
 def judge(case, d, res):
